@@ -421,6 +421,11 @@ func (c *Ctx) instantiatedText(o *Obligation, hints []*Term) string {
 	for _, f := range ic.qf {
 		sb.WriteString("(assert " + f.String() + ")\n")
 	}
+	if c.mode == ModeInt {
+		for _, h := range modHints(ic.qf) {
+			sb.WriteString("(assert " + h.String() + ")\n")
+		}
+	}
 	sb.WriteString("(check-sat)\n")
 	return sb.String()
 }
